@@ -185,13 +185,72 @@ Proof.
   exists items, cst, k. auto.
 Qed.
 
+(* ------------------------------------------------------------------ the compiler's own refusal
+
+   After the visitor the implementation raises in one more situation (apart from the size limit D13): when
+   compile_expression / compile_predicate is called on a Functor whose name is a NumeralTerm (`1(a)`).  The front
+   end model keeps such a functor under a name that begins with a backslash (Lang/Unquote.v); it is touched by the
+   compiler exactly when that name appears in the intermediate code (goals dropped as dead code after `fail`
+   never get there). *)
+(* backslash + digit: the names of the operators \= and \== also begin with a backslash *)
+Definition bad_name (s : str) : bool := match s with 92%N :: c :: _ => is_digit c | _ => false end.
+
+Fixpoint expr_bad (e : expr) : bool :=
+  let go := fix go (l : list expr) : bool := match l with [] => false | x :: r => expr_bad x || go r end in
+  match e with
+  | EStr s => bad_name s
+  | ECall _ args => go args
+  | EList items => go items
+  | EVar _ | ENum _ => false
+  end.
+
+Fixpoint stmt_bad (st : stmt) : bool :=
+  let go := fix go (l : list stmt) : bool := match l with [] => false | x :: r => stmt_bad x || go r end in
+  match st with
+  | SAssign _ e => expr_bad e
+  | SForeach it body => expr_bad it || go body
+  | SBlock _ body => go body
+  | SYieldFalse | SYieldTrue | SReturn | SBreakBlock _ => false
+  end.
+
+Definition ir_bad (ir : ir_program) : bool := existsb (fun f => existsb stmt_bad (fn_body f)) ir.
+
+(* COMPILE_FRONT: the model of _compile_prolog_from_stream up to the intermediate code.
+   None = the implementation raises; Some (prog, ir) = it goes on to print ir. *)
+Definition compile_front (s : str) : option (program * ir_program) :=
+  match front s with
+  | None => None
+  | Some p =>
+      match compile_program p with
+      | Some ir => if ir_bad ir then None else Some (p, ir)
+      | None => None
+      end
+  end.
+
+(* COMPILE_FRONT_WHOLE: code is produced only for complete sentences, and then for the whole sentence *)
+Theorem compile_front_whole s prog ir : compile_front s = Some (prog, ir) ->
+  front s = Some prog /\ compile_program prog = Some ir /\ ir_bad ir = false /\
+  (exists items cst k,
+     lexes s items [] /\ concat (map snd items) = s /\ yield cst = map norm (filter keep items) /\
+     v_program cst 0 = Some (prog, k) /\ Forall2 clause_image (clauses_of cst) prog) /\
+  exists ks, keys_ok ks prog /\
+    Forall2 (fun k f => fn_key f = k /\ exists pieces, fn_body f = concat pieces /\
+                        Forall2 clause_code (filter (has_key k) prog) pieces) ks ir.
+Proof.
+  unfold compile_front. intros H. destruct (front s) as [p|] eqn:Ef; [|discriminate].
+  destruct (compile_program p) as [ir0|] eqn:Ec; [|discriminate].
+  destruct (ir_bad ir0) eqn:Eb; [discriminate|]. injection H as <- <-.
+  destruct (front_compile_whole s p Ef) as [H1 [ir1 [ks [Ec1 [Hk HF]]]]].
+  rewrite Ec in Ec1. injection Ec1 as <-. repeat split; auto. exists ks. auto.
+Qed.
+
 (* ------------------------------------------------------------------ executable entry point for the harness (C10):
    text -> tokens -> tree -> AST -> intermediate code -> Python text, the whole of _compile_prolog_from_stream *)
 From YP Require Import Comp.Emit Comp.RunCompile.
 
 Definition run_text (s : str) : obs :=
-  match front s with
-  | Some p => run_compile p
+  match compile_front s with
+  | Some (p, _) => run_compile p
   | None => otag "none" []
   end.
 
